@@ -329,10 +329,13 @@ let parse_pop name args =
   | "R" -> Await (a 0) | "r" -> PollRes (a 0)
   | "W" -> AwaitBegun (a 0) | "A" -> AwaitArmed (a 0) | "K" -> AwaitTask (a 0) | "Z" -> AwaitExpanded (a 0)
   | _ -> failwith ("unknown pool op " ^ name)
+(* Option.normalize (Pool/PoolOptions.v); the controlled runs fix runtime.NumCPU() to 2 *)
+let pool_workers opts = int_of_string (Zconv.string_of_z (norm_workers (zint 2) (zint (opt_int opts "workers" 1))))
+let pool_limit opts = norm_limit (zint (opt_int opts "limit" 0))
 let pool_slots opts threads =
   let subs = List.fold_left (fun acc th -> acc + List.length (List.filter (fun tok ->
       String.length tok > 0 && (tok.[0] = 'D' || tok.[0] = 'E')) th)) 0 threads in
-  opt_int opts "workers" 1 + subs
+  pool_workers opts + subs
 let show_tres = function TVal id -> "v" ^ string_of_int (int_of_nat id) | TCanceled -> "ec"
 let pool_digest nclients nslots (o : Obj.t) =
   let cfg : (pshared, unit, ppc, pop) config = Obj.obj o in
@@ -357,8 +360,8 @@ let pool_comp opts threads =
   let nslots = pool_slots opts threads in
   let nclients = List.length threads in
   {
-    mach = pool (nat_of_int (opt_int opts "workers" 1)) (zint (opt_int opts "limit" 0));
-    sh0 = (fun o _ -> pinit (nat_of_int (opt_int o "workers" 1)) (opt_int o "autostart" 1 <> 0) []);
+    mach = pool (nat_of_int (pool_workers opts)) (pool_limit opts);
+    sh0 = (fun o _ -> pinit (nat_of_int (pool_workers o)) (opt_int o "autostart" 1 <> 0) []);
     ts0 = (); parse_op = parse_pop; show_ret = show_pret;
     prefill = (fun _ _ -> []); final_prog = (fun _ _ _ -> []); final_digest = (fun _ -> "");
     pc_of = Obj.repr; kind_of = pool_kind; sh_digest = (fun _ -> "");
